@@ -343,6 +343,9 @@ def _run_task(task: tuple) -> Any:
         return {"ok": False, "err": "Timeout", "msg": ""}
     except RecursionError:
         return {"ok": False, "err": "Other:RecursionError", "msg": ""}
+    except Exception as e:  # noqa - a harness-side function failed
+        import traceback
+        return {"ok": False, "err": "Harness:" + type(e).__name__, "msg": traceback.format_exc()[-600:]}
     finally:
         signal.alarm(0)
 
